@@ -7,6 +7,7 @@ the tie to /repo is the correspondence run by `./check C01`.
 -/
 import PyPred.Lemmas.OptSound
 import PyPred.Lemmas.Trace
+import PyPred.Lemmas.Good
 
 namespace PyPred
 variable {V : Type} [LinearOrder V]
@@ -45,6 +46,29 @@ theorem C01_assignments (cfg : Cfg) (hq : cfg.noImpl) (n : Nat) {p o : Pred V}
     ∀ x, eval I o x = eval I p x := by
   intro I x
   exact C01_optimize_preserves cfg hq _ n h I (fun _ _ _ => rfl) x
+
+/-- The result mentions only variables of the argument (any configuration). -/
+theorem C01_vars_subset (cfg : Cfg) (fnc : Nat → V → Bool) (n : Nat) {p o : Pred V}
+    (h : optimize cfg fnc n p = some o) : ∀ a, a ∈ o.names → a ∈ p.names := by
+  unfold optimize at h
+  cases hr : optimizeT cfg fnc n p with
+  | none => simp [hr] at h
+  | some r =>
+    obtain ⟨o', t⟩ := r
+    simp [hr] at h; subst h
+    exact (optimizeT_good cfg fnc n p o' t hr).1
+
+/-- A propositional argument gives a propositional result, so `truth_table` of the
+optimised predicate is defined whenever it is for the original (any configuration). -/
+theorem C01_prop_closed (cfg : Cfg) (fnc : Nat → V → Bool) (n : Nat) {p o : Pred V}
+    (hp : p.isProp = true) (h : optimize cfg fnc n p = some o) : o.isProp = true := by
+  unfold optimize at h
+  cases hr : optimizeT cfg fnc n p with
+  | none => simp [hr] at h
+  | some r =>
+    obtain ⟨o', t⟩ := r
+    simp [hr] at h; subst h
+    exact (optimizeT_good cfg fnc n p o' t hr).2 hp
 
 /-! ### Negation witnesses: the implemented arms really break the property
 (these terms are the known-finding witnesses replayed on /repo by the check). -/
